@@ -80,6 +80,14 @@ func (vc *FuncVC) reflectModel(st *State, fr *Frame, instr ssa.Instruction, call
 		r := freshRV()
 		st.assume(eq(app("rvIface", r.T), x.T))
 		return []any{r}, true
+	case "reflect.Zero":
+		// the zero value of a type, as an interface value: an uninterpreted function of the type
+		t := argV(0)
+		vc.w.declare("zeroOfType", "(declare-fun zeroOfType (Type) Iface)")
+		vc.nopanic(st, "reflect-zero-nil-type", instr, not(eq(t.T, "nilI")))
+		r := freshRV()
+		st.assume(eq(app("rvIface", r.T), app("zeroOfType", app("rtidInv", app("uInt", app("pay", t.T))))))
+		return []any{r}, true
 	case "reflect.TypeOf":
 		x := argV(0)
 		return []any{V{ite(eq(x.T, "nilI"), "nilI", vc.rtOf(app("typ", x.T))), SIface, nil}}, true
@@ -127,8 +135,10 @@ func (vc *FuncVC) reflectModel(st *State, fr *Frame, instr ssa.Instruction, call
 		tgt := app("rvTarget", dst.T)
 		sv := app("rvIface", src.T)
 		// settable and assignable: the destination is the pointee of a non-nil pointer of exactly the source's type
+		vc.w.declare("zeroOfType", "(declare-fun zeroOfType (Type) Iface)")
 		vc.nopanic(st, "reflect-set-assignable", instr, and(not(eq(tgt, "nilI")), eq(app("kindOf", app("typ", tgt)), "22"),
-			not(eq(app("uInt", app("pay", tgt)), "0")), not(eq(sv, "nilI")), eq(app("typ", sv), app("elemT", app("typ", tgt)))))
+			not(eq(app("uInt", app("pay", tgt)), "0")),
+			or(and(not(eq(sv, "nilI")), eq(app("typ", sv), app("elemT", app("typ", tgt)))), eq(sv, app("zeroOfType", app("elemT", app("typ", tgt)))))))
 		p := vc.pointeeGet(st)
 		st.heapSet("Pointee", arraySort(SInt, SIface), sto(p, app("uInt", app("pay", tgt)), sv))
 		return nil, true
